@@ -39,6 +39,9 @@ def connect_fields_match(pkt, info):
     return None
 
 
+T_EXACT = float(1 << 32)       # virtual seconds up to which time arithmetic on the 2**-20 s grid is exact in float64
+
+
 def c04(A):
     o = Out("C04")
     t_end = A.end["t"] if A.end else None
@@ -114,6 +117,8 @@ def c04(A):
             k = call["info"]["keepalive"]
             i_conn = pk[0]["i"]
             deadline = pk[0]["t"] + (k or 10)
+            if deadline > T_EXACT:
+                continue      # (virtual time beyond float64's exact range for these sums: no timing verdicts)
             # the broker's answer to this attempt: first CONNACK delivered after its CONNECT (and before the next attempt)
             answer = None
             blown = []
@@ -222,6 +227,9 @@ def c15(A):
         if c.i_connack_ok is None:
             continue
         k = c.keepalive
+        if (c.t_connack_ok or 0) > T_EXACT or (A.end is not None and c.i_lost is None and A.end["t"] > T_EXACT) \
+                or (c.i_lost is not None and A.trace[c.i_lost]["t"] > T_EXACT):
+            continue          # (virtual time beyond float64's exact range: no timing verdicts)
         pings = [e for e in c.pkts if e["pkt"] is not None and e["pkt"]["t"] == "PINGREQ"]
         stop_i = min(x for x in (c.i_close_req, c.i_lost, 1 << 60) if x is not None)
         t_stop = A.trace[stop_i]["t"] if stop_i < (1 << 60) else (A.end["t"] if A.end else None)
